@@ -143,7 +143,7 @@ def make_field(rng, n, n_pol, noise_kind, real=False):
 
 
 def make_drive(rng, n, Vpi):
-    kind = str(rng.choice(["random", "sine", "const", "bits", "ramp"]))
+    kind = str(rng.choice(["random", "sine", "const", "bits", "ramp", "int_levels", "bool_levels"]))
     if kind == "random":
         u = rng.normal(0, Vpi, n)
     elif kind == "sine":
@@ -152,6 +152,10 @@ def make_drive(rng, n, Vpi):
         u = np.full(n, rng.uniform(-2 * Vpi, 2 * Vpi))
     elif kind == "bits":
         u = np.repeat(rng.integers(0, 2, (n + 3) // 4), 4)[:n] * Vpi
+    elif kind == "int_levels":
+        return kind, rng.integers(-6, 7, n)                      # integer dtype drive (volts)
+    elif kind == "bool_levels":
+        return kind, rng.integers(0, 2, n).astype(bool)          # boolean drive
     else:
         u = np.linspace(-2 * Vpi, 2 * Vpi, n)
     return kind, u.astype(float)
@@ -191,9 +195,13 @@ def w_mzm(ctx, rng, i):
         if dkind == "const":
             sc = D.MZM(x, float(u[0]), bias=bias, Vpi=Vpi, loss_dB=loss, ER_dB=ER, pol=pol)
             ctx.check("mzm.forms", close(sc.signal, outs["ndarray"].signal), "MZM result differs between a scalar drive and a constant array")
+        if u.dtype.kind in "ib":
+            asf = D.MZM(x, u.astype(float), bias=bias, Vpi=Vpi, loss_dB=loss, ER_dB=ER, pol=pol)
+            ctx.check("mzm.forms", close(asf.signal, outs["ndarray"].signal), "MZM result differs between an integer/boolean drive and the same voltages as floats")
+            D.MZM(x, int(rng.integers(-5, 6)), bias=bias, Vpi=Vpi, loss_dB=loss, ER_dB=ER, pol=pol)      # python int scalar drive: mzm.post decides
         # periodicity of the output power in the drive: u -> u + 2*Vpi
         k = int(rng.choice([-2, -1, 1, 2]))
-        shifted = D.MZM(x, u + 2 * Vpi * k, bias=bias, Vpi=Vpi, loss_dB=loss, ER_dB=ER, pol=pol)
+        shifted = D.MZM(x, u.astype(float) + 2 * Vpi * k, bias=bias, Vpi=Vpi, loss_dB=loss, ER_dB=ER, pol=pol)
         ctx.check("mzm.relations", close(np.abs(shifted.signal) ** 2, np.abs(outs["ndarray"].signal) ** 2, rtol=1e-8), "MZM output power is not 2*Vpi-periodic in the drive")
         # with a bandwidth: equals BPF of the closed form (postcondition handles it)
         if n >= 64 and rng.integers(3) == 0:
@@ -257,7 +265,7 @@ def w_pm(ctx, rng, i):
             ctx.check("pm.forms", close(ysc.signal, ya.signal), "PM result differs between a scalar drive and a constant array")
         D.PM(x, int(rng.integers(-5, 6)), Vpi)
         yab = D.PM(ya, b, Vpi)
-        y2 = D.PM(x, a + b, Vpi)
+        y2 = D.PM(x, a.astype(float) + b.astype(float), Vpi)
         ctx.check("pm.compose", close(yab.signal, y2.signal) and ((yab.noise is None) == (y2.noise is None)) and (y2.noise is None or close(yab.noise, y2.noise)), "PM(PM(x,a),b) != PM(x,a+b)")
         ctx.check("pm.input_unchanged", core.digest(x.signal, x.noise, a) == d0, "PM modified its inputs")
         ctx.raises("pm.errors", ValueError, D.PM, x, np.zeros(n + int(rng.integers(1, 4))), Vpi)
